@@ -1,6 +1,7 @@
 """C07 - batches partition the work exactly and honour the size / count."""
 import os
 import math
+import copy
 import itertools
 import collections
 
@@ -91,7 +92,9 @@ def cases(tier, seed):
         for (mode, req), (kind, shuffle, const) in itertools.product(
                 reqs, variants):
             yield {"n": n, "mode": mode, "req": req, "kind": kind,
-                   "shuffle": shuffle, "const": const}
+                   "shuffle": shuffle, "const": const,
+                   "resow": const.startswith("farmer")
+                   and (n + (req or 0)) % 3 == 0}
 
 
 def worker_init():
@@ -124,25 +127,32 @@ def check_case(case):
     # ---- reference: what a direct run passes ------------------------------
     dcombos = {a: v for a, v in combos} if combos else None
     dcases = [tuple(c) for c in cs] if cs else None
-    with xfn.CallLog() as direct:
+    runner = None
+    if farmer:
+        runner = xyz.Runner(f, var_names="out", constants=dict(constants),
+                            resources=dict(resources))
+
+    def direct_run():
         if farmer:
-            runner = xyz.Runner(f, var_names="out", constants=dict(constants),
-                                resources=dict(resources))
-            okw = {"constants": override} if override else {}
+            okw = {"constants": dict(override)} if override else {}
             if kind == "grid":
-                runner.run_combos(dcombos, verbosity=0, **okw)
+                runner.run_combos(copy.deepcopy(dcombos), verbosity=0, **okw)
             else:
                 # (run_cases does not parse combos: hand them over parsed)
-                runner.run_cases(dcases, fn_args=fn_args,
-                                 combos=tuple(dcombos.items()) if dcombos
-                                 else (), verbosity=0, **okw)
+                runner.run_cases(list(dcases), fn_args=fn_args,
+                                 combos=tuple(copy.deepcopy(dcombos).items())
+                                 if dcombos else (), verbosity=0, **okw)
         else:
             if kind == "grid":
-                xyz.combo_runner(f, dcombos, constants=dict(constants),
-                                 verbosity=0)
+                xyz.combo_runner(f, copy.deepcopy(dcombos),
+                                 constants=dict(constants), verbosity=0)
             else:
-                xyz.case_runner(f, fn_args, dcases, combos=dcombos,
+                xyz.case_runner(f, fn_args, list(dcases),
+                                combos=copy.deepcopy(dcombos),
                                 constants=dict(constants), verbosity=0)
+
+    with xfn.CallLog() as direct:
+        direct_run()
     want = collections.Counter(direct.encs())
     if sum(want.values()) != n or max(want.values()) != 1:
         raise core.HarnessError("reference run is not n distinct calls")
@@ -160,14 +170,20 @@ def check_case(case):
                         shuffle=(shuffle if kind == "cases" else False),
                         **kws)
         sow_consts = dict(constants) if constants else None
-    if kind == "cases":
-        crop.sow_cases(fn_args, dcases, constants=sow_consts, verbosity=0)
-    elif kind == "grid":
-        crop.sow_combos(dcombos, constants=sow_consts, shuffle=shuffle,
-                        verbosity=0)
-    else:
-        crop.sow_combos(dcombos, cases=[dict(zip(fn_args, c)) for c in dcases],
-                        constants=sow_consts, shuffle=shuffle, verbosity=0)
+
+    def sow():
+        sc = dict(sow_consts) if sow_consts else None
+        if kind == "cases":
+            crop.sow_cases(fn_args, list(dcases), constants=sc, verbosity=0)
+        elif kind == "grid":
+            crop.sow_combos(copy.deepcopy(dcombos), constants=sc,
+                            shuffle=shuffle, verbosity=0)
+        else:
+            crop.sow_combos(copy.deepcopy(dcombos),
+                            cases=[dict(zip(fn_args, c)) for c in dcases],
+                            constants=sc, shuffle=shuffle, verbosity=0)
+
+    sow()
 
     def tag(s):
         return "C07|%s|%s|%s" % (kind, mode, s)
@@ -232,6 +248,31 @@ def check_case(case):
     if sizes and mode == "num_batches" and max(sizes) - min(sizes) > 1:
         vio.append((tag("balance"), "batch sizes differ by more than one: %r"
                     % sizes))
+    # ---- the farmer's stored constants are changed and the same Crop object
+    # is sown again: the batches hold what a direct run passes *now* ---------
+    if farmer and case.get("resow"):
+        runner.constants = {"k": 8}
+        runner.resources = {"r": 10}
+        with xfn.CallLog() as direct2:
+            direct_run()
+        want2 = collections.Counter(direct2.encs())
+        try:
+            sow()
+            crop3 = xyz.Crop(name="c7", parent_dir=d)
+            got2 = collections.Counter()
+            with xfn.CallLog() as log:
+                for i in range(1, crop3.num_batches + 1):
+                    grow(i, crop=crop3, fn=f, verbosity=0)
+            got2.update(log.encs())
+            if got2 != want2:
+                vio.append((tag("resow-partition"),
+                            "after changing the farmer's constants and sowing "
+                            "again the batches hold %r, a direct run passes %r"
+                            % (list((got2 - want2).elements())[:2],
+                               list((want2 - got2).elements())[:2])))
+        except Exception as e:
+            vio.append((tag("resow-raised:" + type(e).__name__),
+                        "sowing the same Crop object again raised %r" % e))
     return {
         "nontrivial": n >= 2 and B >= 2,
         "outcome": "B=%d,sizes=%s" % (B, sorted(set(sizes))),
